@@ -179,6 +179,73 @@ def seeded_variants(prop: str, project: Project) -> list:
     return out
 
 
+def alpha_rename(source: str, suffix: str = "_r") -> str:
+    """Behaviour-preserving refactor used as a generic twin: every local variable of every function (not parameters,
+    not globals / nonlocals, not names bound by `except ... as` / imports) gets a suffix; the module is re-laid-out."""
+    tree = ast.parse(source)
+
+    def locals_of(fn):
+        params = {a.arg for a in fn.args.posonlyargs + fn.args.args + fn.args.kwonlyargs}
+        if fn.args.vararg:
+            params.add(fn.args.vararg.arg)
+        if fn.args.kwarg:
+            params.add(fn.args.kwarg.arg)
+        banned = set(params)
+        stores = set()
+        stack = list(fn.body)
+        while stack:
+            n = stack.pop()
+            if isinstance(n, (ast.FunctionDef, ast.AsyncFunctionDef, ast.Lambda, ast.ClassDef)):
+                # nested scopes: names they bind as parameters must not be renamed from outside
+                if not isinstance(n, ast.ClassDef):
+                    a = n.args
+                    banned |= {x.arg for x in a.posonlyargs + a.args + a.kwonlyargs}
+                if isinstance(n, (ast.FunctionDef, ast.ClassDef)):
+                    banned.add(n.name)
+                    for x in ast.walk(n):
+                        if isinstance(x, ast.Name) and isinstance(x.ctx, ast.Store):
+                            banned.add(x.id)  # conservatively leave alone anything re-bound in a nested scope
+                    continue
+            if isinstance(n, (ast.Global, ast.Nonlocal)):
+                banned |= set(n.names)
+            if isinstance(n, ast.ExceptHandler) and n.name:
+                banned.add(n.name)
+            if isinstance(n, (ast.Import, ast.ImportFrom)):
+                banned |= {(al.asname or al.name).split(".")[0] for al in n.names}
+            if isinstance(n, ast.Name) and isinstance(n.ctx, (ast.Store, ast.Del)):
+                stores.add(n.id)
+            stack.extend(ast.iter_child_nodes(n))
+        return {x for x in stores - banned if not x.startswith("__")}
+
+    class R(ast.NodeTransformer):
+        def __init__(self):
+            self.scopes = []
+
+        def visit_FunctionDef(self, node):
+            names = locals_of(node)
+            self.scopes.append(names)
+            node.body = [self.visit(b) for b in node.body]
+            self.scopes.pop()
+            return node
+
+        visit_AsyncFunctionDef = visit_FunctionDef
+
+        def visit_ClassDef(self, node):
+            saved, self.scopes = self.scopes, []
+            node.body = [self.visit(b) for b in node.body]
+            self.scopes = saved
+            return node
+
+        def visit_Name(self, node):
+            if any(node.id in sc for sc in self.scopes):
+                return ast.copy_location(ast.Name(id=node.id + suffix, ctx=node.ctx), node)
+            return node
+
+    tree = R().visit(tree)
+    ast.fix_missing_locations(tree)
+    return ast.unparse(tree) + "\n"
+
+
 def parses(text) -> bool:
     try:
         ast.parse(text)
@@ -237,6 +304,15 @@ def variants_for(prop: str, project: Project) -> list[Variant]:
             except Exception:  # pragma: no cover
                 pass
     out.append(Variant(f"{prop}-twin-relayout", prop, "twin", "whole package re-laid-out with ast.unparse (formatting, comments and line numbers change)", overlay))
+    if os.environ.get("VERIF_ALPHA", "1") == "1":
+        ov2 = {}
+        for m in project.modules.values():
+            if m.in_scope:
+                try:
+                    ov2[m.relpath] = alpha_rename(m.source)
+                except Exception:  # pragma: no cover
+                    pass
+        out.append(Variant(f"{prop}-twin-alpha", prop, "twin", "every local variable of every function renamed (x -> x_r), package re-laid-out", ov2))
     for v in list(mod.generate(project)) + seeded_variants(prop, project):
         bad = [p for p, t in v.overlay.items() if p.endswith(".py") and not parses(t)]
         if bad:
